@@ -1,3 +1,4 @@
 import EdzedProofs.Basic
 import EdzedProofs.Counter
+import EdzedProofs.Fsm
 import EdzedProofs.Simulate
